@@ -174,4 +174,117 @@ example :
     Spec.stackOf (s0 ++ [add]) "B" = [⟨none, false, [("k", "new")]⟩, ⟨none, false, [("k", "old")]⟩] := by
   decide
 
+/-- **the `default` flag follows the same rule**: the raw value the manager turns into `is_default` is the one of the first
+section in breadth-first order that sets `default` — an explicit (even false/empty) value in a nearer section shadows
+every farther one. -/
+theorem default_nearest_definition (sources : List Source) (hwf : WF sources) (name : Name) (l : List Entry)
+    (h : inherited (buildLookup sources) name = .ok l) :
+    ∃ r D, Spec.root (Spec.stackOf sources) name = some r ∧ lev (Spec.stackOf sources) D [r] = [] ∧
+      defaultOf l = Spec.value "default" (upTo (Spec.stackOf sources) D [r]) := by
+  obtain ⟨r, D, h1, h2, h3, _⟩ := inherited_is_breadth_first sources hwf name l h
+  exact ⟨r, D, h1, h2, by rw [h3]; rfl⟩
+
+/-- an explicitly empty value in the nearer section wins over a non-empty one farther away (values are opaque: "set" means
+the key is present), for ordinary keys and for `default` -/
+example :
+    let sources : List Source := [[("A", ⟨some ["B"], false, [("k", ""), ("default", "false")]⟩),
+                                   ("B", ⟨none, false, [("class", "x"), ("k", "b"), ("default", "true")]⟩)]]
+    ∃ r, Spec.root (Spec.stackOf sources) "A" = some r ∧ TreeShaped (Spec.stackOf sources) r 2 ∧
+      Spec.value "k" (upTo (Spec.stackOf sources) 2 [r]) = some "" ∧
+      Spec.value "default" (upTo (Spec.stackOf sources) 2 [r]) = some "false" := by
+  refine ⟨⟨"A", ⟨some ["B"], false, [("k", ""), ("default", "false")]⟩, []⟩, by decide, ?_, by decide, by decide⟩
+  exact ⟨by decide, by decide, by decide⟩
+
+/-- **anonymous (inline) sections resolve the same way**: whenever `collapse_section([sec])` on an unnamed section succeeds,
+the relevant sections are the generations below the node `(None, sec)` in breadth-first order over the current sources, every
+target existed, and each ordinary key has the value of the first of them that sets it.  The answer is a function of the
+sources and of `sec` alone. -/
+theorem anon_collapse_nearest_definition (sources : List Source) (hwf : WF sources) (sec : Sec)
+    (cfg : List (String × String)) (h : collapseAnon (buildLookup sources) sec = .ok cfg) :
+    ∃ D, lev (Spec.stackOf sources) D [⟨anonName, sec, []⟩] = [] ∧
+      (∀ k, k ∉ specialKeys → cfg.lookup k = Spec.value k (upTo (Spec.stackOf sources) D [⟨anonName, sec, []⟩])) ∧
+      (∀ k, k ∈ specialKeys → cfg.lookup k = none) ∧ (cfg.map (·.1)).Nodup ∧
+      (Spec.value "class" (upTo (Spec.stackOf sources) D [⟨anonName, sec, []⟩])).isSome = true ∧
+      ∀ e ∈ upTo (Spec.stackOf sources) D [⟨anonName, sec, []⟩], dangling (Spec.stackOf sources) e = false := by
+  obtain ⟨slist, _, hl, hc, hk, hsp, hnd⟩ := collapseAnon_ok _ _ _ h
+  obtain ⟨D, h1, h2, h3⟩ := loop_sound _ _ _ _ _ hl
+  rw [stk_eq sources hwf] at h1 h2 h3
+  have h2' : slist = upTo (Spec.stackOf sources) D [⟨anonName, sec, []⟩] := by simpa using h2
+  refine ⟨D, h1, ?_, hsp, hnd, ?_, h3⟩
+  · intro k hk'; rw [hk k hk', h2']; rfl
+  · rw [← h2']; exact hc
+
+/-- **tree-shaped graphs below an anonymous section collapse** (completeness, so the previous theorem is not vacuous) -/
+theorem anon_tree_shaped_collapses (sources : List Source) (hwf : WF sources) (sec : Sec) (D : Nat)
+    (hio : sec.inheritOnly = false)
+    (htree : TreeShaped (Spec.stackOf sources) ⟨anonName, sec, []⟩ D)
+    (hclass : (Spec.value "class" (upTo (Spec.stackOf sources) D [⟨anonName, sec, []⟩])).isSome = true) :
+    ∃ cfg, collapseAnon (buildLookup sources) sec = .ok cfg := by
+  obtain ⟨h1, h2, h3⟩ := htree
+  rw [← stk_eq sources hwf] at h1 h2 h3 hclass
+  obtain ⟨l, hl⟩ := loop_complete (buildLookup sources) [⟨anonName, sec, []⟩] [anonName] [] D h1 h2 (by simpa using h3)
+  obtain ⟨D', g1, g2, _⟩ := loop_sound _ _ _ _ _ hl
+  have hD : upTo (stkOf (buildLookup sources)) D' [⟨anonName, sec, []⟩] = upTo (stkOf (buildLookup sources)) D [⟨anonName, sec, []⟩] := by
+    rcases Nat.le_total D D' with hle | hle
+    · exact upTo_stable _ D D' _ h1 hle
+    · exact (upTo_stable _ D' D _ g1 hle).symm
+  have hl' : l = upTo (stkOf (buildLookup sources)) D [⟨anonName, sec, []⟩] := by rw [← hD]; simpa using g2
+  unfold collapseAnon
+  simp only [hio, Bool.false_eq_true, if_false, hl]
+  have hc : (firstDef "class" l).isSome = true := by rw [hl']; exact hclass
+  unfold finish
+  cases hf : firstDef "class" l with
+  | none => simp [hf] at hc
+  | some v => exact ⟨_, rfl⟩
+
+/-- non-vacuity: two inline sections with different bases over the same sources are both tree-shaped and get different
+values for `a` -/
+example :
+    let sources : List Source := [[("R", ⟨none, false, [("class", "x"), ("a", "red")]⟩), ("B", ⟨none, false, [("class", "x"), ("a", "blue")]⟩)]]
+    TreeShaped (Spec.stackOf sources) ⟨anonName, ⟨some ["R"], false, [("c", "1")]⟩, []⟩ 2 ∧
+    TreeShaped (Spec.stackOf sources) ⟨anonName, ⟨some ["B"], false, [("b", "2")]⟩, []⟩ 2 ∧
+    Spec.value "a" (upTo (Spec.stackOf sources) 2 [⟨anonName, ⟨some ["R"], false, [("c", "1")]⟩, []⟩]) = some "red" ∧
+    Spec.value "a" (upTo (Spec.stackOf sources) 2 [⟨anonName, ⟨some ["B"], false, [("b", "2")]⟩, []⟩]) = some "blue" := by
+  refine ⟨⟨by decide, by decide, by decide⟩, ⟨by decide, by decide, by decide⟩, by decide, by decide⟩
+
+/-- **missing targets and cycles below an anonymous section are errors** -/
+theorem anon_cycle_or_missing_is_error (sources : List Source) (hwf : WF sources) (sec : Sec)
+    (hbad : Missing (Spec.stackOf sources) ⟨anonName, sec, []⟩ ∨ Cyclic (Spec.stackOf sources) ⟨anonName, sec, []⟩) :
+    ∃ err, collapseAnon (buildLookup sources) sec = .error err := by
+  cases hc : collapseAnon (buildLookup sources) sec with
+  | error err => exact ⟨err, rfl⟩
+  | ok cfg =>
+    exfalso
+    obtain ⟨slist, _, hl, _⟩ := collapseAnon_ok _ _ _ hc
+    obtain ⟨D, h1, _, h3⟩ := loop_sound _ _ _ _ _ hl
+    rw [stk_eq sources hwf] at h1 h3
+    obtain ⟨hm, hcy⟩ := no_missing_no_cycle (Spec.stackOf sources) _ D h1 h3
+    rcases hbad with h | h
+    · exact hm h
+    · exact hcy h
+
+example : Missing (Spec.stackOf [[("R", ⟨none, false, [("class", "x")]⟩)]]) ⟨anonName, ⟨some ["R", "Z"], false, []⟩, []⟩ :=
+  ⟨_, Reach.refl _, by decide⟩
+
+/-- **an anonymous collapse depends on the current sources only**: in any history of named and anonymous collapses,
+`add_config_source` calls and reloads, collapsing an anonymous section returns exactly what it returns on a manager created
+over the sources configured at that moment — in particular it does not depend on which sections (named or anonymous) were
+collapsed before it. -/
+theorem history_anon_collapse_is_current (s : List Source) (pre post : List MOp) (sec : Sec) :
+    (Mgr.run (Mgr.init s) (pre ++ MOp.collapseAnon sec :: post)).2[pre.length]?
+      = some (some (collapseAnon (buildLookup (sourcesAfter s pre)) sec)) := by
+  rw [mrun_append]
+  have hl := mrun_length (Mgr.init s) pre
+  rw [List.getElem?_append_right (by omega)]
+  simp only [hl, Nat.sub_self, Mgr.run, List.getElem?_cons_zero]
+  have hinv := minv_run pre _ (minv_init s)
+  rw [step_collapseAnon, hinv.1, run_sources]
+  rfl
+
+example :
+    sourcesAfter [[("R", ⟨none, false, [("class", "x")]⟩)]]
+      [.collapseAnon ⟨some ["R"], false, []⟩, .addSource [("B", ⟨none, false, []⟩)], .collapse "R"]
+      = [[("R", ⟨none, false, [("class", "x")]⟩)], [("B", ⟨none, false, []⟩)]] := by
+  decide
+
 end Pkgcore.C43
